@@ -2185,7 +2185,18 @@ fn are_inlist_and_eq_and_match_neg(
 ) -> bool {
     match (left, right) {
         (Expr::InList(l), Expr::InList(r)) => {
-            l.expr == r.expr && l.negated == is_left_neg && r.negated == is_right_neg
+            // The set operations below compare list items syntactically, which
+            // is only meaningful when every item is a literal: `a IN (b, 1)`
+            // and `a IN (1, 2)` both hold for `a = b = 2` although `b` and `2`
+            // are different expressions.
+            let all_literals = |list: &[Expr]| {
+                list.iter().all(|item| matches!(item, Expr::Literal(_, _)))
+            };
+            l.expr == r.expr
+                && l.negated == is_left_neg
+                && r.negated == is_right_neg
+                && all_literals(&l.list)
+                && all_literals(&r.list)
         }
         _ => false,
     }
